@@ -53,6 +53,7 @@ ROLE_KINDS = {
     "mean_cov": (0, None, 2, None),
     "ratio_ncov": (0, 1, 2, None),
     "ratio_cov": (0, 1, 2, 3),
+    "mean_ratio_cov": (0, None, 2, 3),      # a plain mean adjusted with a RATIO covariate
 }
 
 
@@ -83,6 +84,12 @@ def make_case(rng, role_kind, cell, i, max_rows=14):
             if mu != 0:
                 for r in t:
                     r[j] = r[j] / mu
+    if roles[2] is not None and roles[3] is None and i % 7 == 5:
+        # a covariate whose POOLED mean is exactly zero (centred, signed covariates) while the variants' means differ
+        j = int(roles[2][1:])
+        mu = sum(r[j] for r in tc + tt) / (len(tc) + len(tt))
+        for r in tc + tt:
+            r[j] = r[j] - mu
     cl = F(rng.randint(1, 99), 100) if i % 4 else F(rng.choice([1, 5, 50, 90, 95, 99]), 100)
     alt, ev, ut = cell
     return dict(role_kind=role_kind, roles=roles, tc=tc, tt=tt, alt=alt, ev=ev, ut=ut, cl=cl,
@@ -308,12 +315,16 @@ def float_duality_boundary(chk, n):
     import scipy.stats as st
     import tea_tasting as tt
     rng = np.random.default_rng(chk.seed + 17)
+    metrics = {}          # ONE metric object per option cell, reused for data sets of very different sizes: nothing
+                          # about an earlier analysis (degrees of freedom, critical values) may leak into a later one
     for k in range(n):
         alt, ev, ut = CELLS[k % len(CELLS)]
-        big = bool(rng.integers(0, 2)) if not ut else (k // 2) % 2 == 0   # both sizes for every t cell
+        big = bool(rng.integers(0, 2)) if not ut else (k // len(CELLS)) % 2 == 0   # both sizes for every t cell
         nc, nt = (int(rng.integers(900, 3000)), int(rng.integers(900, 3000))) if big else \
             (int(rng.integers(4, 30)), int(rng.integers(4, 30)))
-        cl = float(rng.choice([0.9, 0.95, 0.99]))
+        cl = (0.9, 0.95, 0.99)[(k // len(CELLS)) % 3] if k // len(CELLS) < 2 else float(rng.choice([0.9, 0.95, 0.99]))
+        if k // len(CELLS) < 2:
+            cl = 0.95
         xc = rng.normal(10, 2, nc)
         xt = rng.normal(10, rng.uniform(1, 4), nt)
         vc, vt = xc.var(ddof=1), xt.var(ddof=1)
@@ -332,7 +343,10 @@ def float_duality_boundary(chk, n):
             shifted = xt + (xc.mean() - xt.mean()) + z * se
             data = pa.table({"variant": [0] * nc + [1] * nt, "x": np.concatenate([xc, shifted])})
             try:
-                r = tt.Mean("x", alternative=alt, equal_var=ev, use_t=ut, confidence_level=cl).analyze(data, 0, 1, "variant")
+                mkey = (alt, ev, ut, cl)
+                if mkey not in metrics:
+                    metrics[mkey] = tt.Mean("x", alternative=alt, equal_var=ev, use_t=ut, confidence_level=cl)
+                r = metrics[mkey].analyze(data, 0, 1, "variant")
             except Exception as ex:  # noqa: BLE001
                 chk.fail("analysis raised on plain float data", dict(error=repr(ex)))
                 break
